@@ -3,6 +3,7 @@ use crate::Cfg;
 use serde_json::Value;
 
 pub mod c03;
+pub mod c04;
 pub mod c08;
 pub mod c09;
 pub mod c13;
@@ -11,6 +12,7 @@ pub mod c14;
 pub fn run(cfg: &Cfg) -> Option<Report> {
     Some(match cfg.prop.as_str() {
         "C03" => c03::run(cfg),
+        "C04" => c04::run(cfg),
         "C08" => c08::run(cfg),
         "C09" => c09::run(cfg),
         "C13" => c13::run(cfg),
@@ -22,6 +24,7 @@ pub fn run(cfg: &Cfg) -> Option<Report> {
 pub fn replay(cfg: &Cfg, case: &Value) -> Option<Report> {
     Some(match cfg.prop.as_str() {
         "C03" => c03::replay(cfg, case),
+        "C04" => c04::replay(cfg, case),
         "C08" => c08::replay(cfg, case),
         "C09" => c09::replay(cfg, case),
         "C13" => c13::replay(cfg, case),
